@@ -210,7 +210,7 @@ def attr_str(f):
         else:
             head, rng = "bits", "%s..=%s" % (num(lo), num(hi))
     else:
-        head = "bit" if syn % 19 == 4 else "bits"  # (a range list is accepted under either attribute name)
+        head = f.get("head") or ("bit" if syn % 19 == 4 else "bits")  # (a range list is accepted under either attribute name)
         items = []
         for n, (lo, hi) in enumerate(rs):
             if lo == hi and (syn + n) % 2 == 0:
@@ -1959,6 +1959,28 @@ def fam_misc(tier, seed):
         add_const_witnesses(s_, seed, maxn=1)
         out.append(s_)
     out.append(struct(om, "OkCtxDbg", 14, json.loads(json.dumps(fs[:3])), debug=True, default={"form": "=", "value": 0x2AAA}, family="MISC"))
+    # a permuted view and a plain view of the same bits with the same type, both readable (either order)
+    for i, (base, w, off) in enumerate(((16, 8, 0), (32, 8, 8), (24, 8, 16), (64, 16, 32))):
+        hw = w // 2
+        perm = field("perm", [(off + hw, off + w - 1), (off, off + hw - 1)], T_uint(w), access="r")
+        plain = field("plain", [(off, off + w - 1)], T_uint(w), access="r")
+        rev = field("rev", [(off + w - 1 - k, off + w - 1 - k) for k in range(w)], T_uint(w), access="rw")
+        sel = field("sel", [(off + 1, off + 3)], T_uint(3))
+        out.append(struct(mod, "AliasPerm%da" % i, base, [perm, plain, rev, sel], family="MISC"))
+        out.append(struct(mod, "AliasPerm%db" % i, base, json.loads(json.dumps([plain, rev, perm, sel])), default={"form": "=", "value": 0x1234_5678_9ABC_DEF0 & ((1 << base) - 1)}, debug=True, family="MISC"))
+    # literal defaults with a type suffix on arbitrary-int bases (the suffix is the storage integer's)
+    for i, (lit, val, base) in enumerate([("0xAB_3456u32", 0xAB3456, 24), ("0xA5Fu16", 0xA5F, 12), ("65u8", 65, 7), ("0x1_0000_0000u64", 1 << 32, 48), ("7u128", 7, 100), ("1_u8", 1, 1)]):
+        for form in ("=", ":"):
+            out.append(struct(mod, "LitSfx%d%s" % (i, "e" if form == "=" else "c"), base, [field("b0", [(0, 0)], T_bool()), field("top", [(base - 1, base - 1)], T_bool(), access="r")],
+                              default={"form": form, "value": val, "lit": lit}, family="MISC"))
+    # the same variant name declared twice under mutually exclusive cfgs with different discriminants
+    out.append(enum("en_cond", "CndDup3", 3, [("A", 0, None), ("Reset", 1, "on"), ("Reset", 5, "off"), ("B", 2, None)], "conditional", family="MISC"))
+    out.append(enum("en_cond", "CndDup2", 2, [("Reset", 3, "off"), ("Reset", 2, "on"), ("A", 0, None), ("B", 1, None), ("Reset2", 3, "on")], "conditional", family="MISC"))
+    # documentation with a fenced example, #[non_exhaustive] next to `debug`
+    fs = [field("divider", [(0, 7)], T_uint(8), doc=["the divider", "", "```", "let d = 3u8;", "assert_eq!(d, 3);", "```"]), field("on", [(8, 8)], T_bool(), doc=["on", "```text", "not code", "```"]),
+          field("st", [(9, 11)], T_uint(3), access="r", doc=["status"])]
+    for i, (dflt, dbg, attrs) in enumerate(((None, False, []), ({"form": "=", "value": 0x0123}, True, ["#[non_exhaustive]"]), (None, True, ["#[non_exhaustive]", "#[allow(dead_code)]"]))):
+        out.append(struct(mod, "DocFence%d" % i, 16, json.loads(json.dumps(fs)), default=dflt, debug=dbg, family="MISC", extra={"attrs": attrs}))
     # zero fields
     out.append(struct(mod, "Empty8n", 8, [], family="MISC"))
     out.append(struct(mod, "Empty8d", 8, [], default={"form": "=", "value": 7}, family="MISC"))
